@@ -54,6 +54,17 @@ def tryValue {α} (r : Except Err α) (old : Option α) : L (Option α) :=
   | .error .valueError => L.pure old
   | .error e => lraise e
 
+/-- `compiled_re.search(line)`: the model's engine answers `oof` / `none` only when its fuel runs out (never a Python outcome) -/
+def searchL (r : Regex.Re) (line : List Char) : L (Option Regex.Match) :=
+  match Regex.search r line with
+  | .ok m => L.pure m
+  | _ => lraise .outOfFuel
+/-- `compiled_re.sub(f, line)` -/
+def subL (r : Regex.Re) (f : Regex.Match → List Char) (line : List Char) : L (List Char) :=
+  match Regex.sub r f line with
+  | .ok o => L.pure o
+  | _ => lraise .outOfFuel
+
 @[simp] theorem lpure_apply {α} (a : α) (s : Lookup) : (pure a : L α) s = .ok (a, s) := rfl
 @[simp] theorem lmpure_apply {α} (a : α) (s : Lookup) : (L.pure a : L α) s = .ok (a, s) := rfl
 @[simp] theorem lbind_apply {α β} (x : L α) (f : α → L β) (s : Lookup) :
